@@ -29,6 +29,11 @@ def corpus():
         "c02 k_del_upd_db cbe=db sbe=fs devs=2 hist=s0|c0:a|s0|s1|t:100|x0:a|t:200|u1:a|s0|s1|s0|s1",
         "c02 k_compact cbe=fs sbe=fs devs=2 hist=s0|c0:a|c0:b|x0:a|g0:0:5|z0:0|s0|s1",
         "c02 k_both_create cbe=fs sbe=fs devs=2 hist=s0|s1|t:50|c0:a|t:60|c1:b|s0|s1|s0|s1",
+        # forced overwrite (what a hard conflict does): the incoming folder grows / shrinks the stored vault
+        "c02 k_force_grow cbe=fs sbe=fs devs=2 hist=c0:a|c0:b|u0:a|p0:0|c1:c|h1:0:0|o1",
+        "c02 k_force_grow_db cbe=db sbe=fs devs=2 hist=c0:a|c0:b|u0:a|p0:0|c1:c|h1:0:0|o1",
+        "c02 k_force_shrink cbe=fs sbe=fs devs=2 hist=c1:a|c1:b|c1:c|h1:0:0|o1",
+        "c02 k_force_shrink_db cbe=db sbe=fs devs=2 hist=c1:a|c1:b|c1:c|h1:0:0|o1",
     ]
 
 
@@ -36,7 +41,7 @@ def gen_cases(rng, tier):
     n = 40 if tier == "quick" else 1500
     out = []
     for j in range(n):
-        h = acct.gen_history(rng, 2, rng.randrange(6, 16), with_folders=(j % 3 == 0), extra_ops=("z%(d)d:%(f)s", "p%(d)d:%(f)s"))
+        h = acct.gen_history(rng, 2, rng.randrange(6, 16), with_folders=(j % 3 == 0), extra_ops=("z%(d)d:%(f)s", "p%(d)d:%(f)s", "h%(d)d:0:%(o)d", "h%(d)d:0:%(o)d", "o%(d)d"))
         out.append("c02 g%d cbe=%s sbe=%s devs=2 hist=%s" % (j, "db" if j % 4 == 1 else "fs", "db" if j % 5 == 2 else "fs", "|".join(h)))
     return out
 
